@@ -138,7 +138,7 @@ def obj_of(system, mom, vals):
 
 
 NUMPY_LAYOUTS = ["np()", "np(3)", "np(2,2)", "np(3)-int", "np(0)", "np(1)", "np(2,1,2)", "np(3)-spacelike"]
-AWK_LAYOUTS = ["ak-flat", "ak-jagged", "ak-nested", "ak-option", "ak-record", "ak-rawzip", "ak-regular", "ak-flat-int", "ak-empty", "ak-one", "ak-jagged-spacelike"]
+AWK_LAYOUTS = ["ak-flat", "ak-jagged", "ak-nested", "ak-option", "ak-record", "ak-rawzip", "ak-regular", "ak-flat-int", "ak-empty", "ak-one", "ak-jagged-spacelike", "ak-record-hits", "ak-record-label"]
 
 
 def nest(layout):
@@ -147,7 +147,7 @@ def nest(layout):
             "ak-flat": ["E", "E", "E"], "ak-jagged": [["E", "E"], [], ["E"]], "ak-nested": [[["E"], ["E", "E"]], [], [[]]],
             "ak-option": [["E", None], None, ["E"]], "ak-record": "E", "object": "E", "ak-rawzip": [["E", "E"], [], ["E"]], "ak-regular": [["E", "E", "E"], ["E", "E", "E"]], "np(3)-int": ["E", "E", "E"], "ak-flat-int": ["E", "E", "E"],
             "np(0)": [], "np(1)": ["E"], "np(2,1,2)": [[["E", "E"]], [["E", "E"]]], "ak-empty": [], "ak-one": [["E"]],
-            "np(3)-spacelike": ["E", "E", "E"], "ak-jagged-spacelike": [["E", "E"], [], ["E"]]}[layout]
+            "np(3)-spacelike": ["E", "E", "E"], "ak-jagged-spacelike": [["E", "E"], [], ["E"]], "ak-record-hits": "E", "ak-record-label": "E"}[layout]
 
 
 def fill(struct, f):
@@ -175,6 +175,11 @@ def build(layout, system, mom, rng, extras=False):
     if layout == "ak-empty":
         # an empty array of vectors still has the record type of its vectors
         return vector.zip({key(n): ak.Array(np.zeros(0)) for n in names}), struct
+    if layout in ("ak-record-hits", "ak-record-label"):
+        # a record carrying exactly one extra field, list- or string-valued
+        arr = vector.Array([{key(n): struct[n] for n in names}])
+        arr = ak.with_field(arr, ak.Array([[21, 22]]), "hits") if layout.endswith("hits") else ak.with_field(arr, ak.Array(["mu"]), "label")
+        return arr[0], struct
     if layout == "ak-record":
         rec = {key(n): struct[n] for n in names}
         if extras:
